@@ -25,7 +25,7 @@ func genNum(r *rand.Rand) int64 {
 
 var prePool = [][]Ident{
 	{{S: "a"}}, {{S: "b"}}, {{Num: true, N: 0}}, {{Num: true, N: 1}}, {{S: "a"}, {Num: true, N: 1}}, {{S: "rc"}, {Num: true, N: 2}},
-	{{S: "alpha"}}, {{Num: true, N: 0}, {S: "a"}}, {{S: "A"}}, {{S: "a-b"}}, {{Num: true, N: 10}}, {{S: "a"}, {S: "b"}}, {{S: "0a"}}, {{S: "-"}},
+	{{S: "alpha"}}, {{Num: true, N: 0}, {S: "a"}}, {{S: "A"}}, {{S: "a-b"}}, {{Num: true, N: 10}}, {{S: "a"}, {S: "b"}}, {{S: "0a"}}, {{S: "-"}}, {{S: "-5"}}, {{S: "a"}, {S: "-1"}},
 }
 
 func genPre(r *rand.Rand) []Ident { return prePool[r.Intn(len(prePool))] }
